@@ -96,3 +96,19 @@ Lemma repaired_examples :
   /\ move_module_text repaired w1 (RPy [a_] b_) [c_] m_crash
      = Done (mk [a_; p_] [IFrom 0 [c_] [(b_, None)]] [[b_; f_]]).
 Proof. vm_compute. repeat split; reflexivity. Qed.
+
+Lemma example_all_import :
+  imports_ok w3 m_ex_import = true /\ imports_ok w3 m_ex_rel = true /\ imports_ok w3 m_ex_from = true
+  /\ move_domain repaired w3 (RPy [a_; p_] b_) [c_] m_ex_rel = true.
+Proof. vm_compute. repeat split; reflexivity. Qed.
+
+(* a by-stander with two import statements (plus the package __init__ of a/p as a module of the layout) *)
+Definition w3k : world := {| w_l := RPy [c_] k_ :: w_l w3; w_g := w_g w3 |}.
+Definition m_by := mk [c_] [INormal [([a_; q_], None)]; IFrom 0 [a_] [(q_, Some x_)]] [[a_; q_; r_]; [x_; r_]; [x_]].
+
+Lemma example_bystander :
+  bystander_domain w3k (RPy [a_; p_] b_) [c_] m_by = true
+  /\ bystander_domain w3k (RPy [a_; p_] b_) [] m_by = true
+  /\ resolve_ref w3k m_by [x_; r_] = Some (OGlob (RPy [a_] q_) r_)
+  /\ length (m_imports m_by) = 2.
+Proof. vm_compute. repeat split; reflexivity. Qed.
